@@ -114,4 +114,120 @@ theorem eval_unhandled_propagates_unchanged (f sc tvs : Nat) (n body : Node) (cl
   simp only [hc, hf, Bool.or_false, Bool.false_eq_true, ↓reduceIte]
   exact unhandled_propagates_unchanged _ e s1 s2 hd
 
+/-! ### loops, functions, if -/
+
+theorem run_get (s : St) : run (get : M St) s = (.ok s, s) := rfl
+theorem run_set (s' s : St) : run (set s' : M Unit) s = (.ok (), s') := rfl
+theorem run_modify (g : St → St) (s : St) : run (modify g : M Unit) s = (.ok (), g s) := rfl
+
+/-- a fresh instance-state map around `m` changes neither value nor signal of `m` -/
+theorem withFreshIs_outcome {α : Type} (m : M α) (s : St) :
+    (run (withFreshIs m) s).1 = (run m { s with isStore := s.isStore.push [], curIs := s.isStore.size }).1 := by
+  unfold withFreshIs
+  simp only [run_bind, run_get, run_set, run_attempt, run_modify]
+  rcases hm : run m { s with isStore := s.isStore.push [], curIs := s.isStore.size } with ⟨r, s1⟩
+  cases r <;> rfl
+
+/-- **eval_break_innermost** (condition loop): evaluating a `for guard { block }` node never ends in a break
+    signal — a `break` raised in the block (at any depth that is not inside a nested loop) ends this loop -/
+theorem eval_break_innermost_guard (f sc ls : Nat) (n g body : Node) (t : Tok) (s s0 s' : St) (e : Sig)
+    (hn : n.name = "loop") (hc : n.children = [some g, some body]) (hg : g.name = "guard") (ht : n.tok = some t)
+    (hsc : run (newChild sc (blockName n t)) s = (.ok ls, s0))
+    (h : run (eval (f+2) sc n) s = (.error e, s')) : e.isBreak = false := by
+  rw [eval_guardloop_is_guardLoop f sc n g body hn hc hg, scopeName_eq _ _ ht] at h
+  simp only [pure_bind, run_bind, hsc] at h
+  have h1 := withFreshIs_outcome (guardLoop (eval f ls g) (eval f ls body) f) s0
+  rw [h] at h1
+  rcases hm : run (guardLoop (eval f ls g) (eval f ls body) f)
+      { s0 with isStore := s0.isStore.push [], curIs := s0.isStore.size } with ⟨r, s1⟩
+  rw [hm] at h1
+  simp only at h1
+  subst h1
+  exact break_innermost_guard _ _ f _ s1 e hm
+
+/-- **eval_return_innermost_function**: once the frame of a declared function exists, running it is
+    `callCore` of its body: a return signal raised anywhere in the body (not inside a nested call) ends
+    THIS call with the returned value, and never reaches the caller -/
+theorem eval_return_innermost_function (f fvs : Nat) (body : Node) (s : St) :
+    run (callCore (withFreshIs (eval f fvs body))) s = match run (withFreshIs (eval f fvs body)) s with
+      | (.ok v, s1) => (.ok v, s1)
+      | (.error (.ret _ v), s1) => (.ok v, s1)
+      | (.error e, s1) => (.error e, s1) :=
+  return_innermost_function _ s
+
+theorem eval_return_stops_at_call (f fvs : Nat) (body : Node) (s s' : St) (e : RtErr) (v : Val) :
+    run (callCore (withFreshIs (eval f fvs body))) s ≠ (.error (.ret e v), s') :=
+  return_stops_at_call _ s s' e v
+
+theorem ifPairs_append (sc : Nat) : ∀ (a r : List (Node × Node)) (k : Nat),
+    ifPairs sc (a.length + k) (a ++ r) = ifPairs sc (a.length + k) a ++ ifPairs sc k r
+  | [], r, k => by cases r <;> cases k <;> simp [ifPairs]
+  | (g, b) :: a, r, k => by
+    have h : ((g, b) :: a).length + k = (a.length + k) + 1 := by simp; omega
+    rw [h]
+    simp only [List.cons_append, ifPairs, ifPairs_append sc a r k]
+
+/-- **eval_if_first_true**: evaluating an `if` node: with the guards before `g` evaluated (in the node's
+    child scope `bs`) to values other than `true` and `g` to `true`, the outcome is the evaluation of the
+    block `b` of `g`, in `bs` — and nothing else of the statement is evaluated -/
+theorem eval_if_first_true (sc bs m : Nat) (n g b : Node) (pre post : List (Node × Node)) (t : Tok)
+    (s s0 s1 s2 : St) (hn : n.name = "if") (hc : n.children = flatPairs (pre ++ (g, b) :: post))
+    (ht : n.tok = some t) (hm : post.length < m)
+    (hsc : run (newChild sc (blockName n t)) s = (.ok bs, s0))
+    (hpre : GuardsFalse (ifPairs bs (pre.length + (m + 1)) pre) s0 s1)
+    (hg : run (eval m bs g) s1 = (.ok (.bool true), s2)) :
+    run (eval (pre.length + (m + 1) + 1) sc n) s = run (eval m bs b) s2 := by
+  rw [eval_if_is_ifChain (pre.length + (m + 1)) sc n _ hn hc (by simp; omega), scopeName_eq _ _ ht]
+  simp only [pure_bind, run_bind, hsc, ifPairs_append, ifPairs]
+  exact if_first_true _ _ _ _ s0 s1 s2 hpre hg
+
+/-! ### with the shape hypotheses discharged by C07's `WellFormed` -/
+
+/-- **eval_finally_exactly_once** for every well-formed try node: the shape facts (block first, clauses
+    after it, a `finally` clause has exactly its block and a token) come from `WellFormed` -/
+theorem eval_finally_exactly_once_wf (n : Node) (hwf : Ecal.Parse.WellFormed n = true) (hn : n.name = "try") :
+    ∃ (body : Node) (clauses : List Node), n.children = some body :: clauses.map some ∧
+      ∀ last, (body :: clauses).getLast? = some last → last.name = "finally" →
+        ∃ (fb : Node) (tl : Tok), last.children = [some fb] ∧ last.tok = some tl ∧
+          ∀ (f sc fs : Nat) (s s0 s1 : St) (r : Except Sig Val),
+            run (newChild sc (blockName last tl)) s = (.ok fs, s0) →
+            run (tryMain f sc n body clauses) s0 = (r, s1) →
+            (∀ w, r ≠ .error (.unsupported w)) → r ≠ .error .fuel →
+            run (eval (f+2) sc n) s = afterFinally r (run (eval f fs fb) s1) := by
+  obtain ⟨body, clauses, hc, hbn, _, hcl⟩ := wf_try_shape hwf hn
+  refine ⟨body, clauses, hc, ?_⟩
+  intro last hl hfn
+  have hmem : last ∈ body :: clauses := List.mem_of_getLast? hl
+  have hlc : last ∈ clauses := by
+    rcases List.mem_cons.1 hmem with rfl | h
+    · rw [hbn] at hfn; exact absurd hfn (by decide)
+    · exact h
+  obtain ⟨fb, tl, hfc, _, hlt, _⟩ := wf_block_shape (hcl last hlc).2 (Or.inl hfn)
+  refine ⟨fb, tl, hfc, hlt, ?_⟩
+  intro f sc fs s s0 s1 r hsc hm hr hr'
+  exact eval_finally_exactly_once f sc fs n body last fb clauses tl s s0 s1 r hn hc hl hfn hfc hlt hsc hm hr hr'
+
+/-- every well-formed `if` node is `ifChain` over its (guard, block) pairs (fuel beyond their number) -/
+theorem eval_if_is_ifChain_wf (n : Node) (hwf : Ecal.Parse.WellFormed n = true) (hn : n.name = "if") :
+    ∃ (ps : List (Node × Node)) (t : Tok), n.children = flatPairs ps ∧ n.tok = some t ∧
+      ∀ (f sc : Nat), ps.length < f →
+        eval (f+1) sc n = (do let bs ← newChild sc (blockName n t); ifChain (ifPairs bs f ps)) := by
+  obtain ⟨ps, t, hc, ht, _⟩ := wf_if_shape hwf hn
+  refine ⟨ps, t, hc, ht, ?_⟩
+  intro f sc hf
+  rw [eval_if_is_ifChain f sc n ps hn hc hf, scopeName_eq _ _ ht]
+  simp
+
+/-- every well-formed condition loop is `guardLoop` over the evaluations of its guard and block -/
+theorem eval_guardloop_is_guardLoop_wf (n : Node) (hwf : Ecal.Parse.WellFormed n = true) (hn : n.name = "loop") :
+    ∃ (c0 body : Node) (t : Tok), n.children = [some c0, some body] ∧ n.tok = some t ∧
+      (c0.name = "guard" → ∀ (f sc : Nat), eval (f+2) sc n = (do
+        let ls ← newChild sc (blockName n t)
+        withFreshIs (guardLoop (eval f ls c0) (eval f ls body) f))) := by
+  obtain ⟨c0, body, t, hc, _, ht, _, _, _⟩ := wf_loop_shape hwf hn
+  refine ⟨c0, body, t, hc, ht, ?_⟩
+  intro hg f sc
+  rw [eval_guardloop_is_guardLoop f sc n c0 body hn hc hg, scopeName_eq _ _ ht]
+  simp
+
 end Ecal.Props.C04
